@@ -131,25 +131,65 @@ Example C06_example :
   end.
 Proof. vm_compute. split; reflexivity. Qed.
 
-(* "most recent template of that id" is FALSE of the faithful model when the id changes KIND
-   (known finding K_C06_kind_change): the two kinds live in two maps and the map consulted first
-   wins.  V9: options template 300, then template 300 = [InBytes/4], then data 300: decoded with
-   the stale options template.  IPFIX: template 300, then options template 300, then data 300:
-   decoded with the stale plain template. *)
-Theorem C06_kind_change_refuted :
+(* an id names ONE template (repair of the kind-change defect): a template record supersedes an
+   options template of the same id and vice versa, so whichever map is consulted first, data is
+   decoded with the most recent definition of its id *)
+Theorem C06_one_kind_v9 : forall puf s i,
+  (forall ts pad r s', parse_body puf v9_template_id s i = (Ok (V9Templates ts pad) r, s') ->
+     forall t, In t ts -> lookup (t_id t) (v9_o s') = None /\ lookup (t_id t) (v9_t s') <> None)
+  /\ (forall ts pad r s', parse_body puf v9_options_template_id s i = (Ok (V9OTemplates ts pad) r, s') ->
+     forall t, In t ts -> lookup (ot_id t) (v9_t s') = None /\ lookup (ot_id t) (v9_o s') <> None).
+Proof.
+  intros puf s i. split; intros ts pad r s' H t Ht; unfold parse_body in H.
+  - change (v9_template_id =? v9_template_id)%N with true in H. cbn iota in H.
+    destruct (parse_templates i) as [[ts0 pad0] r0|e]; inversion H; subst. cbn [v9_t v9_o].
+    split; [apply lookup_remove_keys_in; now apply in_map|apply fold_insert_in; now apply in_map].
+  - change (v9_options_template_id =? v9_template_id)%N with false in H.
+    change (v9_options_template_id =? v9_options_template_id)%N with true in H. cbn iota in H.
+    destruct (parse_otemplates i) as [[ts0 pad0] r0|e]; inversion H; subst. cbn [v9_t v9_o].
+    split; [apply lookup_remove_keys_in; now apply in_map|apply fold_insert_in; now apply in_map].
+Qed.
+Print Assumptions C06_one_kind_v9.
+
+Theorem C06_one_kind_ipfix : forall puf id s i r s',
+  (forall t, parse_ibody puf id s i = (Ok (IxTemplate t) r, s') ->
+     lookup (it_id t) (ix_t s') = Some t /\ lookup (it_id t) (ix_o s') = None)
+  /\ (forall t, parse_ibody puf id s i = (Ok (IxOTemplate t) r, s') ->
+     lookup (io_id t) (ix_o s') = Some t /\ lookup (io_id t) (ix_t s') = None).
+Proof.
+  intros puf id s i r s'. unfold parse_ibody.
+  destruct ((id <? ipfix_set_min_range)%N && negb (id =? ipfix_options_template_id)%N).
+  { destruct (parse_itemplate i) as [t0 r0|e]; [|split; intros t H; inversion H].
+    destruct (fields_valid (it_fields t0)); split; intros t H; inversion H; subst. cbn [ix_t ix_o].
+    split; [apply lookup_insert_eq|apply lookup_remove_eq]. }
+  destruct (id =? ipfix_options_template_id)%N.
+  { destruct (parse_iotemplate i) as [t0 r0|e]; [|split; intros t H; inversion H].
+    destruct (fields_valid (io_fields t0)); split; intros t H; inversion H; subst. cbn [ix_t ix_o].
+    split; [apply lookup_insert_eq|apply lookup_remove_eq]. }
+  destruct (lookup id (ix_t s)) as [t0|].
+  { destruct (parse_idata puf (it_fields t0) i) as [[? ?] ?|?]; split; intros t H; inversion H. }
+  destruct (lookup id (ix_o s)) as [t0|]; [|split; intros t H; inversion H].
+  destruct (parse_idata puf (io_fields t0) i) as [[? ?] ?|?]; split; intros t H; inversion H.
+Qed.
+Print Assumptions C06_one_kind_ipfix.
+
+(* the two histories that used to decode with the stale definition (fixed: K_C06_kind_change).
+   V9: options template 300, then template 300 = [InBytes/4], then data 300: decoded as Data.
+   IPFIX: template 300, then options template 300, then data 300: decoded as options data. *)
+Example C06_kind_change_example :
   (match parse_bytes true (allow_list default_allowed) empty_state ([x00; x09; x00; x01; x00; x00; x00; x01; x00; x00; x00; x02; x00; x00; x00; x01; x00; x00; x00; x04; x00; x01; x00; x14; x01; x2c; x00; x04; x00; x04; x00; x01; x00; x04; x00; x22; x00; x04; x00; x00] ++ [x00; x09; x00; x01; x00; x00; x00; x01; x00; x00; x00; x02; x00; x00; x00; x02; x00; x00; x00; x04; x00; x00; x00; x0c; x01; x2c; x00; x01; x00; x01; x00; x04] ++ [x00; x09; x00; x01; x00; x00; x00; x01; x00; x00; x00; x02; x00; x00; x00; x03; x00; x00; x00; x04; x01; x2c; x00; x08; x00; x07; x00; x64]) with
    | Some [_; _; (PV9 p, s)] =>
-       (exists sc op pad, map fs_body (v9_sets p) = [V9OData sc op pad])
-       /\ lookup 300 (v9_t (st9 s)) <> None /\ lookup 300 (v9_o (st9 s)) <> None
+       (exists recs pad, map fs_body (v9_sets p) = [V9Data recs pad] /\ length recs = 1%nat)
+       /\ lookup 300 (v9_t (st9 s)) <> None /\ lookup 300 (v9_o (st9 s)) = None
    | _ => False end)
   /\ (match parse_bytes true (allow_list default_allowed) empty_state ([x00; x0a; x00; x1c; x00; x00; x00; x01; x00; x00; x00; x02; x00; x00; x00; x03; x00; x02; x00; x0c; x01; x2c; x00; x01; x00; x01; x00; x04] ++ [x00; x0a; x00; x22; x00; x00; x00; x01; x00; x00; x00; x02; x00; x00; x00; x03; x00; x03; x00; x12; x01; x2c; x00; x02; x00; x01; x00; x07; x00; x02; x00; x0b; x00; x02] ++ [x00; x0a; x00; x18; x00; x00; x00; x01; x00; x00; x00; x02; x00; x00; x00; x03; x01; x2c; x00; x08; x00; x07; x00; x64]) with
       | Some [_; _; (PIx p, s)] =>
-          (exists ents pad, map is_body (ix_sets p) = [IxData ents pad])
-          /\ lookup 300 (ix_t (stx s)) <> None /\ lookup 300 (ix_o (stx s)) <> None
+          (exists ents pad, map is_body (ix_sets p) = [IxOData ents pad] /\ length ents = 2%nat)
+          /\ lookup 300 (ix_t (stx s)) = None /\ lookup 300 (ix_o (stx s)) <> None
       | _ => False end).
 Proof.
-  vm_compute. split; (split; [|split; discriminate]).
-  - eexists. eexists. eexists. reflexivity.
-  - eexists. eexists. reflexivity.
+  vm_compute. split; (split; [|split; (reflexivity || discriminate)]).
+  - eexists. eexists. split; reflexivity.
+  - eexists. eexists. split; reflexivity.
 Qed.
-Print Assumptions C06_kind_change_refuted.
+
